@@ -101,7 +101,9 @@ def alloc_block(eng, st, size, align, ins):
             if sz == size and al == align:
                 choice = z3.Bool('reuse!%d' % id(ins) + str(len(st.pc)))
                 raise Unsupported('reuse model not available in this mode')
-    return eng.alloc_heap(st, size, align, 'heap@%s' % eng.loc(ins).split(' <- ')[0])
+    frames = eng.loc(ins).split(' <- ')
+    site = next((f for f in frames if not f.startswith('library/')), frames[0])
+    return eng.alloc_heap(st, size, align, 'heap@%s' % site)
 
 
 def free_block(eng, st, p, ins):
